@@ -34,6 +34,10 @@ func genC02(r *Rng) *Case {
 	if r.Chance(1, 3) && o.Ctx == 0 && o.Hash <= 1 {
 		o.Form = 1
 	}
+	o.Zip = r.Chance(1, 4) // a verification-only flag: signing must not care
+	if o.Ctx > 0 && r.Chance(1, 3) {
+		o.CK = 1 + r.Intn(3)
+	}
 	op.Opt = o
 	op.ML = []int{0, 1, 2, 31, 32, 63, 64, 65, 111, 112, 113, 127, 128, 129, 255, 256, 257, 1000, 4096, r.Range(0, 3000)}[r.Intn(20)]
 	if o.Hash == 1 && r.Chance(1, 8) {
@@ -56,8 +60,14 @@ func enumSignLengths() []*Case {
 		out = append(out, &Case{Prop: "C02", Check: "sign", Op: op})
 	}
 	for c := 0; c <= 257; c++ {
-		add(&Op{Fn: "PrivSign", Opt: Opt{Ctx: c}, ML: c % 70})
-		add(&Op{Fn: "PrivSign", Opt: Opt{Hash: 1, Ctx: c}})
+		add(&Op{Fn: "PrivSign", Opt: Opt{Ctx: c, Zip: c%3 == 0}, ML: c % 70})
+		add(&Op{Fn: "PrivSign", Opt: Opt{Hash: 1, Ctx: c, Zip: c%3 == 1}})
+	}
+	for _, c := range []int{2, 254, 255, 256, 258, 300, 510} {
+		for ck := 1; ck <= 2; ck++ {
+			add(&Op{Fn: "PrivSign", Opt: Opt{Ctx: c, CK: ck}, ML: 5})
+			add(&Op{Fn: "PrivSign", Opt: Opt{Hash: 1, Ctx: c, CK: ck}})
+		}
 	}
 	for ml := 0; ml <= 260; ml++ {
 		add(&Op{Fn: "PrivSign", ML: ml, Opt: Opt{Form: ml % 2}})
